@@ -100,6 +100,7 @@ def detect(name, props, scratch=None, tier='quick', seed=0):
         sh(['git', '-C', tree, 'checkout', '--', 'isotp'])
         # tables were regenerated from the mutated tree: restore them from the clean tree
         sh([PY, os.path.join(VERIF, 'harness', 'extract_tables.py')], env=dict(os.environ, VERIF_REPO='/repo'))
+        sh([PY, os.path.join(VERIF, 'harness', 'py2lean.py')], env=dict(os.environ, VERIF_REPO='/repo'))
     rec = {'tier': tier, 'seed': seed, 'tree': tree, 'results': results,
            'detected_by': [p for p, r in results.items() if r['rc'] == 1],
            'with_failing_input': [p for p, r in results.items() if r['rc'] == 1 and not any('no-failing-input-found' in v for v in r['violation'])]}
